@@ -3,7 +3,7 @@ from fractions import Fraction
 
 from ..core import AnalysisError, anchor
 from .. import cfront
-from ..cfront import walk, strip, callee_name, call_args, render, line_of, qtype, toks
+from ..cfront import walk, strip, callee_name, call_args, render, line_of, qtype, toks, is_assign
 from . import compose as C, x4
 from .x4 import Poly
 
@@ -224,7 +224,50 @@ def rule_components(ctx):
                 stats['groups'], floor=40, samples=stats['samples'])
 
 
+def rule_janus_grid_roundtrip(ctx):
+    """R10.8: JANUS stores the state on an integer grid. to_double maps a grid index k to a coordinate, to_int maps it back
+    with an implicit (truncating) conversion. On the grid the round trip must be exact: composing the two assignments
+    symbolically has to give k itself - any residual offset (a rounding bias such as + 0.5) is truncated differently for
+    negative and positive k, so a state that starts on the grid does not come back to its initial bits."""
+    import sympy as sp
+    from . import symexec
+    tu = cfront.load_tu('integrator_janus.c')
+    fi, fd = tu.func('to_int'), tu.func('to_double')
+
+    def assigns(fn):
+        out = {}
+        for e in walk(cfront.body(fn)):
+            if is_assign(e) and e['opcode'] == '=' and strip(e['inner'][0]).get('kind') == 'MemberExpr':
+                out[strip(e['inner'][0])['name']] = e
+        return out
+    ai, ad = assigns(fi), assigns(fd)
+    anchor(len(ai) >= 6 and set(ai) == set(ad), 'to_int and to_double assign the same six members')
+    n = 0
+    for m in sorted(ai):
+        st = symexec.State()
+        # to_double: ps[i].m = g(psi[i].m)
+        try:
+            g = st.ev(ad[m]['inner'][1])
+            src = st.path(strip(ad[m]['inner'][0]))
+            st2 = symexec.State()
+            st2.syms = st.syms
+            st2.vals[src] = g
+            f = st2.ev(ai[m]['inner'][1])
+        except ValueError as ex:
+            raise AnalysisError('R10.8: conversion of member %s cannot be summarised (%s)' % (m, ex))
+        k = st.sym(st.path(strip(ai[m]['inner'][0])))
+        n += 1
+        resid = sp.simplify(f - k)
+        if resid != 0:
+            ctx.report('R10.8', 'janus:grid:%s' % m, 'src/integrator_janus.c:%s to_int' % line_of(ai[m]),
+                       'to_int(to_double(k)) = k + (%s) for member %s before the truncating conversion: grid points do not map to themselves for both signs of k, so a state on the grid is not recovered bit for bit' % (resid, m))
+    ctx.covered('R10.8', 'JANUS grid conversions: to_int after to_double is the identity on grid indices (symbolic, per member)', n, floor=6)
+
+
 def run(ctx):
+    rule_janus_grid_roundtrip(ctx)
+    from . import c03
+    c03.rule_bracket_swap(ctx)            # R03.8: a backward Kepler step that falls back to bisection brackets the root (time-reversed runs retrace the forward ones)
     rule_components(ctx)
     from . import sei
     sei.rule_reversible(ctx, 'R10.7')
